@@ -160,10 +160,13 @@ impl<W: Write> RustWrite<W> {
     pub fn write_uses(&mut self, super_prefix: &str, grammar: &Grammar) -> io::Result<()> {
         // things the user wrote
         for u in &grammar.uses {
+            // The item is copied verbatim: if it ends in a `//` comment, the terminating
+            // semicolon has to go on a line of its own.
+            let semi = if u.contains("//") { "\n;" } else { ";" };
             if u.starts_with("super::") {
-                rust!(self, "use {}{};", super_prefix, u);
+                rust!(self, "use {}{}{}", super_prefix, u, semi);
             } else {
-                rust!(self, "use {};", u);
+                rust!(self, "use {}{}", u, semi);
             }
         }
 
